@@ -256,7 +256,7 @@ fn adc_check(b: &[u8]) {
 }
 #[kani::proof]
 #[kani::unwind(10)]
-fn adc_len16() { let b: [u8; 16] = kani::any(); adc_check(&b); }
+fn adc_len016() { let b: [u8; 16] = kani::any(); adc_check(&b); }
 #[kani::proof]
 #[kani::unwind(10)]
 fn adc_short_lengths() {
